@@ -2,7 +2,7 @@
  * The file is the environment: one in-memory byte array file_[FCAP] with length flen_ and cursor fpos_; the FILE* given to phosg
  * is the opaque address of hfile_.  Every stdio function Image::load/save reach (via freadx/fwritex/fgets in Filesystem.cc)
  * is defined here with its libc contract:
- *   fread/fwrite (size 1 items; short count at end of file / when the array is full), fgetc (EOF at end), fgets (line or
+ *   fread/fwrite (size 1 items; short count at end of file / when the array is full; unread tail of the buffer poisoned), fgetc (EOF at end), fgets (line or
  *   n-1 bytes, NUL-terminated, NULL at end), feof, fseek (SET/CUR, may go past the end), fileno, fscanf("%zu"/"%lu": skip
  *   white space, read decimal digits, 0 items if none), snprintf (literals and %zu/%lu decimal; exact).
  * In the real build (VERIF_NATIVE_REAL) the same definitions interpose the libc symbols; calls on any other FILE* (the native
@@ -62,18 +62,20 @@ uint64_t STUB(fread)(uint8_t* p, uint64_t size, uint64_t n, uint8_t* f) {
   ASSERT(size == 1, "file model: item size 1");
   /* The cursor is kept as "bytes requested so far" (it may run past flen_; every reader treats a cursor >= flen_ as end of
    * file), so that it stays a concrete number on the no-short-read path whatever the symbolic file length is. */
-  /* Deviation, stated: on a short read the unread tail of the caller's buffer (still inside the size*n bytes the caller
-   * passed) receives the array's stale bytes instead of being left alone.  freadx() throws on every short read, so the tail
-   * is never looked at; keeping the copy unconditional keeps header bytes concrete for the solver whatever flen_ is. */
+  /* On a short read libc leaves the unread tail of the caller's buffer untouched (uninitialised malloc memory in load()).
+   * The model writes the file's stale byte XOR 0xA5 there: still inside the size*n bytes the caller passed, and guaranteed to
+   * differ from the true data, so a decoder that ignored a short read cannot pass the "decodes identically" check.
+   * For positions below the concrete lower bound flen_min_ the XOR term folds to 0 and header bytes stay concrete. */
+#define FBYTE(pos) ((uint8_t)(file_[pos] ^ (IN_FILE(pos) ? 0 : 0xA5)))
   uint64_t got = 0;
   if (n == 2 && fpos_ + 1 < FCAP) {
     /* same bytes, written as one 2-byte object: clang turns load()'s `char sig[2]` into an i16 slot, and CBMC folds the
      * signature to a constant only when the slot is assigned as a whole (two byte-wise updates stay symbolic) */
-    uint8_t two[2] = {file_[fpos_], file_[fpos_ + 1]};
+    uint8_t two[2] = {FBYTE(fpos_), FBYTE(fpos_ + 1)};
     memcpy(p, two, 2);
     got = (IN_FILE(fpos_) ? 1 : 0) + (IN_FILE(fpos_ + 1) ? 1 : 0);
   } else
-  for (uint64_t i = 0; i < n; i++) { if (fpos_ + i < FCAP) p[i] = file_[fpos_ + i]; if (IN_FILE(fpos_ + i)) got++; }
+  for (uint64_t i = 0; i < n; i++) { if (fpos_ + i < FCAP) p[i] = FBYTE(fpos_ + i); if (IN_FILE(fpos_ + i)) got++; }
   fpos_ += n;
   if (got < n) feof_ = 1;
   return got;
@@ -207,27 +209,6 @@ void STUB(_ZN5phosg13string_printfB5cxx11EPKcz)(uint8_t* sret, uint8_t* fmt, ...
   *(uint8_t**)sret = sret + 16;
   *(uint64_t*)(sret + 8) = 0;
   sret[16] = 0;
-}
-#endif
-
-#ifndef VERIF_NATIVE_REAL
-/* phosg::fgets(FILE*) (Filesystem.cc; property C14's subject, built on std::deque<std::string> of 256-byte blocks) is cut out
- * of the generated C and replaced by its contract: the next line including its '\n' (or the rest of the file; "" at end of
- * file) as a std::string.  The result is built directly in libstdc++'s layout {char* p; size_t size; union {char buf[16];
- * size_t capacity;}} with operator new from the runtime model for lines longer than 15 characters.  The real build runs the
- * real phosg::fgets over the ::fgets stub above. */
-uint8_t* X__Znwm(uint64_t n);
-void STUB(_ZN5phosg5fgetsB5cxx11EP8_IO_FILE)(uint8_t* sret, uint8_t* f) {
-  FOREIGN(f, 0);
-  uint8_t line[40]; uint32_t k = 0;
-  while (IN_FILE(fpos_)) { ASSERT(k < sizeof(line) - 1, "BOUND: header line length"); uint8_t c = file_[fpos_++]; line[k++] = c; if (c == '\n') break; }
-  if (k == 0) feof_ = 1;
-  uint8_t* d = sret + 16;
-  if (k > 15) { d = X__Znwm((uint64_t)k + 1); *(uint64_t*)(sret + 16) = k; }
-  for (uint32_t i = 0; i < k; i++) d[i] = line[i];
-  d[k] = 0;
-  *(uint8_t**)sret = d;
-  *(uint64_t*)(sret + 8) = k;
 }
 #endif
 
